@@ -8,7 +8,7 @@ from . import ftlib as F
 
 ID = "C05"
 CHECKER = "chk_named"
-THEOREMS = ['C05_q2r_decomposition', 'C05_r2q_decomposition', 'C05_transforms_agree_q2r', 'C05_transforms_agree_q2r_unc', 'C05_transforms_agree_r2q', 'C05_transforms_agree_r2q_unc', 'C05_transforms_agree_q2r_full', 'C05_transforms_agree_r2q_full', 'C05g_q2r_decomposition', 'C05g_r2q_decomposition', 'C05g_q2r_decomposition_binary64', 'C05g_two_over_pi_binary64']
+THEOREMS = ['C05_q2r_decomposition', 'C05_r2q_decomposition', 'C05_transforms_agree_q2r', 'C05_transforms_agree_q2r_unc', 'C05_transforms_agree_r2q', 'C05_transforms_agree_r2q_unc', 'C05_transforms_agree_q2r_full', 'C05_transforms_agree_r2q_full', 'C05g_q2r_decomposition', 'C05g_r2q_decomposition', 'C05g_q2r_decomposition_binary64', 'C05g_two_over_pi_binary64', 'C05w_q2r_no_window', 'C05w_r2q_no_window', 'C05w_q2r_window_defaults', 'C05w_r2q_window_defaults', 'C05w_q2r_decomposition', 'C05w_r2q_decomposition', 'C05w_rconv_commutes_with_crop', 'C05w_gconv_commutes_with_crop', 'C05w_q2r_window_is_precrop', 'C05w_r2q_window_is_precrop', 'C05w_q2r_outside_irrelevant', 'C05w_r2q_outside_irrelevant', 'C05w_q2r_outside_irrelevant_idx', 'C05w_r2q_outside_irrelevant_idx', 'C05w_q2r_outside_irrelevant_R', 'C05w_r2q_outside_irrelevant_R', 'C05w_transforms_agree_q2r', 'C05w_transforms_agree_q2r_unc', 'C05w_transforms_agree_r2q', 'C05w_transforms_agree_r2q_unc', 'C05w_transforms_agree_q2r_full', 'C05w_transforms_agree_r2q_full']
 RULE = ("all 24 named transforms x {Lorch, omitted-range} on/off x with/without uncertainties (exhaustive over methods and options), with and without the window keywords xmin/xmax, flags as bool / numpy bool / 1, uncertainty positional or by its keyword, "
         "sampled grids/data/material constants; all three returned arrays compared; non-trivial = some output differs from the all-zero "
         "input's output; distinct by input hash")
